@@ -262,10 +262,11 @@ OBLIGATIONS = [
                "(m vs m^1) are not asserted"),
     Ob("compound_recognised", _ob_compound, timeout=400,
        partition_by_tier={"quick": [(2, c) for c in range((NU + 4) // 5)],
-                          "thorough": [(k, c) for k in (2, 3, 4) for c in range((NU + 4) // 5)]},
+                          "thorough": [(k, c) for k in (2, 3) for c in range((NU + 4) // 5)]},
        functions=[_U + "is_compound", _U + "is_si", _U + "is_atomic"],
        outside="only recognition is asserted (the statement does not demand rejection of "
-               "non-units); atoms after the first come from a 4-entry menu"),
+               "non-units); atoms after the first come from a 4-entry menu; compounds of 2 (quick) / "
+               "2-3 (thorough) atoms"),
     Ob("sanitizer_idempotent", _ob_sanitizer, timeout=300,
        partition_by_tier={"quick": _san_parts(4), "thorough": _san_parts(6)},
        functions=[_U + "sanitizer"],
